@@ -17,6 +17,7 @@ RULE += " 8% of the cases are an account with a single portfolio whose id is 'ma
 RULE += " The caller keeps every object it was handed (Portfolio objects, the holdings mapping, Position objects, holdings reports) and checks at every later snapshot that they still describe the same account; its own copies (list_all_portfolios(), every second holdings report incl. the per-asset entries) are emptied. A subscription of exactly a negative balance's shortfall is generated when a portfolio is overdrawn; 4% of the time steps add 1-999 ns."
 RULE += ' A fifth of the cases use odd-case / colliding asset symbols (EQ:spy, EQ:Brk.b, EQ:AAA next to EQ:aaa); two of the start instants lie before 1970.'
 RULE += ' A third of the direct transactions are created first and given their commission afterwards (public attribute). 15% of the quote changes arrive through ANOTHER data handler object assigned to broker.data_handler.'
+RULE += ' Round 11: 12% of the cases run with warnings escalated to errors; 12% use free-text portfolio ids (\'p%1\', \'100%s\', \'a b\', "p\'4"); valid direct marks / transactions with whole-number prices and commissions given as ints, and fills without a positive price in a held asset (refused), are part of every fault mode; a hand-made transaction is booked in the ledger with the quantity, price and commission the harness put in.'
 ASSUMPTIONS = [
     'fills are taken as the Transaction delivered to Portfolio.transact_asset (price, signed quantity, commission); '
     'that these equal quote and fee model is C05',
